@@ -181,6 +181,9 @@ def den_rel(n, row, env=None):
             v = den_rel(x, row, env)
             if v is None:
                 return None
+            if isinstance(v, O):
+                v = v.id            # a to-one relationship compared with a key: the related row's key
+
             if isinstance(v, bool):
                 return A.Boolean("true" if v else "false")
             if isinstance(v, int):
